@@ -170,6 +170,8 @@ def type_hint(ty):
         return "v", None
     if ty.startswith("obj:"):
         return "v", ty[4:]
+    if ty.startswith("opt:"):
+        return "v", ty[4:]        # Optional[Class]: may be None (param_facts does not assume non-None)
     return "v", ty   # list/set/dict/deque/fn/str/<ClassName>
 
 
@@ -3208,6 +3210,9 @@ def _patch_run():
         fs = []
         if sv.kind != "v":
             return fs
+        if isinstance(ty, str) and ty.startswith("opt:"):
+            inner = self.param_facts(name, sv, ty[4:], st)
+            return [Or(sv.t == L.None_, And(*inner))] if inner else []
         h = sv.hint
         if h in ("list", "set", "dict", "deque", "frozenset", "ddset") or h in CLASSES:
             fs += [Select(st.alloc, sv.t), L.is_ref(sv.t), sv.t != L.None_]
